@@ -29,6 +29,9 @@ type Prop struct{}
 func (Prop) ID() string     { return "C14" }
 func (Prop) Level() string  { return "exploration" }
 func (Prop) QuickRuns() int { return 3000 }
+
+// CrossProcessRuns: encodings must be byte-identical between processes too.
+func (Prop) CrossProcessRuns() int { return 400 }
 func (Prop) Rule() string {
 	return "each run = one generated scenario (1-5 policies, entity store, request, batch template, values, one repository schema fixture) observed twice: under the canonical schedule (sorted map iteration everywhere, policies/entities inserted in generation order) and under one tape-chosen schedule (per map-iteration event: canonical / reverse / rotation / shuffle; permuted insertion order with repetitions; permuted custom PolicyIterator). Observables: authorize decision + reason set + error set with messages (PolicySet, PolicyMap and custom iterator), batch results as a multiset, every text/JSON encoding, and decode-under-schedule + re-encode. Non-trivial iff at least one map-iteration event with >=2 keys was served in non-canonical order or the insertion order was permuted; distinct = distinct hash of (scenario tape, schedule hash)."
 }
